@@ -679,9 +679,9 @@ func c15ConcTest(t *testing.T, hostile bool) {
 	verifhook.SetAction("streams.openSync.beforeWait", delay)
 	defer verifhook.ClearActions()
 
-	rounds, batch, name := l.Pick(1500, 60000), 50, "conc"
+	rounds, batch, name := l.Pick(3000, 60000), 50, "conc"
 	if hostile {
-		rounds, batch, name = l.Pick(100, 1000), 10, "conc-hostile"
+		rounds, batch, name = l.Pick(300, 6000), 10, "conc-hostile"
 	}
 	for bi := 0; bi*batch < rounds; bi++ {
 		if !l.Mine(bi) {
